@@ -9,6 +9,16 @@ package repository
 // in total) is used up (premise of C12: no process stalls longer than the
 // staleness margin); without budget an operation still waits for its turn, but
 // no virtual time passes while it waits.
+// Schedules may ask for a backend with LISTING DELAY ("lag": a lock file shows up
+// in listings of the lock directory only 100 ms of virtual time after it was
+// saved; Load / Remove by name and removals are immediate; schedule steps are
+// released without virtual time passing, "wait" / "tick" advance it), for a smaller
+// stall budget ("budget", seconds) and may contain "stale" steps of a third party
+// whose clock is ahead (k = units of 2.5 min): real RemoveStaleLocks cannot be
+// skewed inside the bubble, so the harness lists + loads the lock files through
+// the real forAllLocks and removes those that lockHandle.stale() or a clock ahead
+// by that much judges stale.  The time a process was last robbed of a lock file
+// is part of the observation (LockObs!ExclusionMargin).
 // After every schedule step, after every mutating lock-file operation and at
 // the instant a lock context is cancelled the harness records an observation
 // (lock directory + what every process believes); TLC judges the records
@@ -23,6 +33,7 @@ import (
 	"math/rand"
 	"os"
 	"sort"
+	"strconv"
 	"strings"
 	"sync"
 	"syscall"
@@ -39,7 +50,8 @@ import (
 const (
 	vlUnit        = 150 * time.Second // model time unit (2.5 min)
 	vlWait        = 10 * time.Second  // "wait": to the next multiple of 10 s; lets the 200 ms sleeps, 1 s monitor polls, retry delays and due tickers happen
-	vlStallBudget = 5 * time.Minute   // total time the gates may stall one process
+	vlStallBudget = 5 * time.Minute   // total time the gates may stall one process (default)
+	vlListLag     = 100 * time.Millisecond // listing delay of schedules with "lag": shorter than waitBeforeLockCheck
 )
 
 type vlStep struct {
@@ -55,6 +67,8 @@ type vlSched struct {
 	Fam   string   `json:"fam"`
 	N     int      `json:"n"`
 	Steps []vlStep `json:"steps"`
+	Lag    bool    `json:"lag"`    // listings of the lock directory show a new file only after vlListLag
+	Budget int     `json:"budget"` // stall budget per process in seconds (0: vlStallBudget)
 }
 
 type vlWaiter struct {
@@ -84,6 +98,7 @@ type vlProc struct {
 	stallUsed    time.Duration
 	fail         map[string]bool
 	robbed       bool
+	robbedAt     int64 // time (ms) somebody else last removed a lock file of this process
 	newest       int64 // time (ms) of the newest lock file this process saved, -1 if none
 	faulted      bool  // a Save/Remove fault was ever injected for this process
 	logs         []string
@@ -101,7 +116,7 @@ type vlObs struct {
 	Ev  int       `json:"ev"`  // 0 after a schedule step, 1 after a mutating lock op, 2 at the instant a lock context is cancelled (state just before)
 	Now int64     `json:"now"` // ms of virtual time since the start of the schedule
 	F   [][]int64 `json:"f"`   // lock files: [owner, time(ms), exclusive]
-	P   [][]int64 `json:"p"`   // per process: [believes, ctxAlive, exclusive, robbed, stall(ms), clean-finished, faulted, newest own lock time]
+	P   [][]int64 `json:"p"`   // per process: [believes, ctxAlive, exclusive, robbed, stall(ms), clean-finished, faulted, newest own lock time, robbedAt(ms)]
 	R   [][]int64 `json:"r"`   // remote (scripted) holders: [time(ms), exclusive]
 }
 
@@ -128,6 +143,10 @@ type vlEnv struct {
 	opsN     int
 	gateLd   bool
 	trace    []string
+	budget   time.Duration        // stall budget per process
+	lag      bool                 // listing delay
+	created  map[string]time.Time // lock file name -> (virtual) time it was saved
+	hidden   int                  // files hidden from listings by the delay
 }
 
 var errVlInjected = fmt.Errorf("verif: injected lock backend fault")
@@ -176,6 +195,7 @@ func (b *vlBE) Save(ctx context.Context, h backend.Handle, rd backend.RewindRead
 	if err == nil {
 		b.e.mu.Lock()
 		b.e.owner[h.Name] = b.p.idx
+		b.e.created[h.Name] = time.Now()
 		b.e.mu.Unlock()
 	}
 	if err == nil && fail {
@@ -201,6 +221,7 @@ func (b *vlBE) Remove(ctx context.Context, h backend.Handle) error {
 		b.e.mu.Lock()
 		if o := b.e.owner[h.Name]; o >= 1 && o <= len(b.e.procs) && o != b.p.idx {
 			b.e.procs[o-1].robbed = true
+			b.e.procs[o-1].robbedAt = b.e.ms()
 		}
 		b.e.mu.Unlock()
 	}
@@ -243,6 +264,18 @@ func (b *vlBE) List(ctx context.Context, t backend.FileType, fn func(backend.Fil
 	// the memory backend lists in map order; use a reproducible pseudo-random order instead
 	sort.Slice(fis, func(i, j int) bool { return fis[i].Name < fis[j].Name })
 	b.e.mu.Lock()
+	if b.e.lag {
+		// listing delay: files saved less than vlListLag ago are not listed yet
+		var vis []backend.FileInfo
+		for _, fi := range fis {
+			if c, ok := b.e.created[fi.Name]; ok && time.Since(c) < vlListLag {
+				b.e.hidden++
+				continue
+			}
+			vis = append(vis, fi)
+		}
+		fis = vis
+	}
 	b.e.rng.Shuffle(len(fis), func(i, j int) { fis[i], fis[j] = fis[j], fis[i] })
 	b.e.mu.Unlock()
 	for _, fi := range fis {
@@ -270,7 +303,7 @@ func (e *vlEnv) gate(proc, kind string, h backend.Handle) {
 		e.mu.Unlock()
 		return
 	}
-	rem := vlStallBudget - p.stallUsed
+	rem := e.budget - p.stallUsed
 	w := &vlWaiter{ch: make(chan struct{}), kind: kind, at: time.Now()}
 	e.tr(p, kind, "arrive")
 	if rem < time.Millisecond {
@@ -398,7 +431,7 @@ func (e *vlEnv) observe(ev int, preCancel int) {
 		for _, w := range p.waiters {
 			stall += time.Since(w.at)
 		}
-		o.P = append(o.P, []int64{vlB(bel), vlB(ctxAlive), vlB(p.excl), vlB(p.robbed), int64(stall / time.Millisecond), vlB(clean), vlB(p.faulted), p.newest})
+		o.P = append(o.P, []int64{vlB(bel), vlB(ctxAlive), vlB(p.excl), vlB(p.robbed), int64(stall / time.Millisecond), vlB(clean), vlB(p.faulted), p.newest, p.robbedAt})
 	}
 	// keep only the first and the last of a run of observations that differ in nothing but time
 	if n := len(e.obs); n >= 2 && ev == 0 && vlSame(e.obs[n-1], o) && vlSame(e.obs[n-2], o) && e.obs[n-1].Ev == 0 {
@@ -423,7 +456,7 @@ func (e *vlEnv) sleep(d time.Duration) {
 		for _, p := range e.procs {
 			var keep []*vlWaiter
 			for _, w := range p.waiters {
-				if w.exhausted || vlStallBudget-p.stallUsed-time.Since(w.at) < time.Millisecond {
+				if w.exhausted || e.budget-p.stallUsed-time.Since(w.at) < time.Millisecond {
 					ws = append(ws, w)
 					e.autos++
 					e.tr(p, w.kind, "nobudget")
@@ -576,6 +609,21 @@ func (e *vlEnv) fakeLock(host string, pid int, age time.Duration, excl bool, own
 	e.mu.Unlock()
 }
 
+// vlRemoveStaleSkewed is RemoveStaleLocks as run by a third party whose clock is ahead by skew: the lock files are
+// listed and loaded by the real forAllLocks, judged by the real lockHandle.stale() and by the age test of stale()
+// evaluated on the skewed clock, and removed like RemoveStaleLocks does.
+func vlRemoveStaleSkewed(ctx context.Context, repo *Repository, skew time.Duration) error {
+	return forAllLocks(ctx, repo, nil, func(id restic.ID, lock *lockHandle, err error) error {
+		if err != nil {
+			return nil
+		}
+		if time.Since(lock.Time)+skew > staleLockTimeout || lock.stale() {
+			return (&internalRepository{repo}).RemoveUnpacked(ctx, restic.LockFile, id)
+		}
+		return nil
+	})
+}
+
 // vlBase creates the repository files (config, key) every schedule starts from.
 func vlBase(t *testing.T) map[backend.Handle][]byte {
 	be := mem.New()
@@ -613,6 +661,7 @@ type vlRec struct {
 	Autos  int      `json:"autos"` // gated operations released by the stall budget
 	Noops  int      `json:"noops"` // schedule steps that had nothing to release / did not apply
 	Ops    int      `json:"ops"`   // gated lock-file operations
+	Hidden int      `json:"hidden"` // lock files hidden from listings by the listing delay
 	Logs   []string `json:"logs"`
 	Trace  []string `json:"trace"`
 	Errs   []string `json:"errs"`
@@ -637,6 +686,12 @@ func vlSchedString(s vlSched) string {
 			sb.WriteString("T ")
 		case "fail":
 			fmt.Fprintf(&sb, "F%d:%s ", st.P, st.K)
+		case "stale":
+			if st.K != "" && st.K != "0" {
+				fmt.Fprintf(&sb, "stale+%s ", st.K)
+			} else {
+				sb.WriteString("stale0 ")
+			}
 		case "heal":
 			fmt.Fprintf(&sb, "H%d ", st.P)
 		case "remote", "orphan":
@@ -657,7 +712,10 @@ func vlRun(t *testing.T, base map[backend.Handle][]byte, s vlSched, probes bool)
 	rec = vlRec{ID: s.ID, Fam: s.Fam, N: s.N, Sched: vlSchedString(s), Out: []string{}, Logs: []string{}, Errs: []string{}, Trace: []string{}, Probe: []int64{0, 0}}
 	synctest.Test(t, func(t *testing.T) {
 		e := &vlEnv{t: t, store: kit.NewStoreFrom(base), byName: map[string]*vlProc{}, owner: map[string]int{}, info: map[string]*vlFileInfo{},
-			remote: [][]int64{}, t0: time.Now(), gateLd: true}
+			remote: [][]int64{}, t0: time.Now(), gateLd: true, budget: vlStallBudget, lag: s.Lag, created: map[string]time.Time{}}
+		if s.Budget > 0 {
+			e.budget = time.Duration(s.Budget) * time.Second
+		}
 		var h int64
 		for _, c := range s.ID {
 			h = h*131 + int64(c)
@@ -731,7 +789,13 @@ func vlRun(t *testing.T, base map[backend.Handle][]byte, s vlSched, probes bool)
 					e.crash(p)
 				}
 			case "stale":
-				if _, err := RemoveStaleLocks(ctx, u.repo); err != nil {
+				skew, _ := strconv.Atoi(st.K)
+				if skew > 0 {
+					// `unlock` by a third party whose clock is ahead by skew units
+					if err := vlRemoveStaleSkewed(ctx, u.repo, time.Duration(skew)*vlUnit); err != nil {
+						rec.Errs = append(rec.Errs, "stale+: "+err.Error())
+					}
+				} else if _, err := RemoveStaleLocks(ctx, u.repo); err != nil {
 					rec.Errs = append(rec.Errs, "stale: "+err.Error())
 				}
 			case "all":
@@ -749,6 +813,7 @@ func vlRun(t *testing.T, base map[backend.Handle][]byte, s vlSched, probes bool)
 							e.store.Del(backend.Handle{Type: backend.LockFile, Name: n})
 							e.mu.Lock()
 							p.robbed = true
+							p.robbedAt = e.ms()
 							e.mu.Unlock()
 						}
 					}
@@ -827,7 +892,7 @@ func vlRun(t *testing.T, base map[backend.Handle][]byte, s vlSched, probes bool)
 				rec.Errs = append(rec.Errs, p.name+": "+p.errText)
 			}
 		}
-		rec.Obs, rec.Autos, rec.Noops, rec.Ops = e.obs, e.autos, e.noops, e.opsN
+		rec.Obs, rec.Autos, rec.Noops, rec.Ops, rec.Hidden = e.obs, e.autos, e.noops, e.opsN, e.hidden
 		rec.Trace = append([]string{}, e.trace...)
 		e.mu.Unlock()
 		for _, w := range ws {
@@ -948,6 +1013,19 @@ func vlDrive(t *testing.T, rule string, probes bool) {
 		res.Count("gated_lock_ops", r.Ops)
 		res.Count("released_by_stall_budget", r.Autos)
 		res.Count("schedule_steps_without_effect", r.Noops)
+		res.Count("hidden_by_listing_delay", r.Hidden)
+		res.Count("family:"+r.Fam, 1)
+		robbedHolder := false
+		for _, o := range r.Obs {
+			for _, p := range o.P {
+				if p[0] == 1 && p[1] == 1 && p[3] == 1 {
+					robbedHolder = true
+				}
+			}
+		}
+		if robbedHolder {
+			res.Count("schedules_with_robbed_live_holder", 1)
+		}
 		res.Count("outcome:"+strings.Join(r.Out[:r.N], ","), 1)
 		if r.Probe[0] == 1 {
 			res.Count("probe_exclusive_acquired", 1)
